@@ -117,13 +117,18 @@ func contains(l []string, s string) bool {
 }
 
 type c18 struct {
-	ctx *core.Ctx
-	res *core.Result
-	sc  *core.Scratch
+	ctx  *core.Ctx
+	res  *core.Result
+	sc   *core.Scratch
+	prop string // "" = C18; C03 / C04 run the several-container parts too
 }
 
 func (x *c18) violation(model, space string, idx int64, a string, b core.Files, script []string, oracle, sig, msg string) {
-	x.res.AddViolation(core.Violation{Property: "C18", Engine: "approvex/merge-" + strings.ToLower(model), Space: space,
+	prop := x.prop
+	if prop == "" {
+		prop = "C18"
+	}
+	x.res.AddViolation(core.Violation{Property: prop, Engine: "approvex/merge-" + strings.ToLower(model), Space: space,
 		Index: idx, Inputs: inputsOf(core.Files{Main: a}, b), Script: script, Oracle: oracle, Signature: sig, Message: msg})
 }
 
@@ -635,6 +640,8 @@ func c18Worker(ctx *core.Ctx) *core.Result {
 	x.runLinux()
 	x.runPanos()
 	x.runNSX()
+	x.runPanosMulti()
+	x.runNSXMulti()
 	x.runErrors()
 	return x.res
 }
@@ -642,9 +649,193 @@ func c18Worker(ctx *core.Ctx) *core.Result {
 func init() {
 	registerSharded("C18", c18Worker, func(tier string) core.Meta {
 		return core.Meta{ID: "C18", Level: "exploration",
-			Rule:        "all combinations of part shapes: Netspoc IPv4 part {empty, only deny, permit+deny, only permits, 2 permits+deny, 2 denies} x IPv6 part (same shapes; ASA, PAN-OS, NSX) x raw prepend entries {0,1,2} x raw [APPEND] entries {0,1,2} x raw ACL name {equal to Netspoc's, own}; Linux additionally x raw file layout {one table with / without COMMIT line, a second table with its own [APPEND] section in front, with / without COMMIT between}; for ASA, IOS, Linux, PAN-OS, NSX; the effective target is observed as the state an empty device model reaches after executing the script of the real planner; oracle = independent list predicates: every entry exactly once, order inside each part preserved, raw entries in front of all Netspoc entries, [APPEND] entries behind the last permitting Netspoc entry and in front of the trailing deny/drop entries (PAN-OS: at the end; NSX: only completeness); plus a list of unmergeable raw entries (unknown command, unbound / doubly bound object, name clash, forbidden names) that must give an error or a warning; non-trivial = combinations the tool accepted and whose result was checked",
+			Rule:        "all combinations of part shapes: Netspoc IPv4 part {empty, only deny, permit+deny, only permits, 2 permits+deny, 2 denies} x IPv6 part (same shapes; ASA, PAN-OS, NSX) x raw prepend entries {0,1,2} x raw [APPEND] entries {0,1,2} x raw ACL name {equal to Netspoc's, own}; Linux additionally x raw file layout {one table with / without COMMIT line, a second table with its own [APPEND] section in front, with / without COMMIT between}; for ASA, IOS, Linux, PAN-OS, NSX; several containers: PAN-OS two vsys x each part holding 0..3 rules for either (144 combinations), NSX three gateway policies x each part holding any subset (511 combinations); the effective target is observed as the state an empty device model reaches after executing the script of the real planner; oracle = independent list predicates: every entry exactly once, order inside each part preserved, raw entries in front of all Netspoc entries, [APPEND] entries behind the last permitting Netspoc entry and in front of the trailing deny/drop entries (PAN-OS: at the end; NSX: only completeness); plus a list of unmergeable raw entries (unknown command, unbound / doubly bound object, name clash, forbidden names) that must give an error or a warning; non-trivial = combinations the tool accepted and whose result was checked",
 			Assumptions: []string{"relative order of IPv4 and IPv6 entries is not prescribed by the statement and not checked"},
 			Bounds:      map[string]any{"entries per part": "<=3 Netspoc, <=2 raw, <=2 APPEND"},
 		}
 	}, 120*time.Second, 10*time.Minute)
+}
+
+// ---- several containers: PAN-OS vsys, NSX policies ----
+
+// runPanosMulti: two vsys; every part (IPv4, IPv6, raw) may hold rules for
+// either, both or none, with 0..3 rules each.  Per vsys the merged rulebase
+// must hold every rule of every part exactly once in the documented order.
+func (x *c18) runPanosMulti() {
+	rule := func(name, action, src string) string {
+		return fmt.Sprintf(`<entry name="%s"><action>%s</action><from><member>z1</member></from><to><member>z2</member></to>`+
+			`<source><member>%s</member></source><destination><member>any</member></destination><service><member>any</member></service>`+
+			`<application><member>any</member></application></entry>`, name, action, src)
+	}
+	type part struct{ n [2]int } // rules per vsys
+	cfg := func(tag string, base int, p part) (string, [2][]string) {
+		var lists [2][]string
+		if p.n[0]+p.n[1] == 0 {
+			return "", lists
+		}
+		var vs strings.Builder
+		for v := 0; v < 2; v++ {
+			if p.n[v] == 0 {
+				continue
+			}
+			var rb, ab strings.Builder
+			for i := 0; i < p.n[v]; i++ {
+				ad := fmt.Sprintf("IP_10.%d.%d.%d", base, v+1, i+1)
+				rb.WriteString(rule(fmt.Sprintf("%sv%dr%d", tag, v+1, i+1), "allow", ad))
+				fmt.Fprintf(&ab, `<entry name="%s"><ip-netmask>%s/32</ip-netmask></entry>`, ad, strings.TrimPrefix(ad, "IP_"))
+				lists[v] = append(lists[v], "allow "+ad)
+			}
+			fmt.Fprintf(&vs, `<entry name="vsys%d"><rulebase><security><rules>%s</rules></security></rulebase><address>%s</address></entry>`, v+1, rb.String(), ab.String())
+		}
+		return `<config><devices><entry name="localhost.localdomain"><vsys>` + vs.String() + `</vsys></entry></devices></config>` + "\n", lists
+	}
+	dev := `<config><devices><entry name="localhost.localdomain"><vsys><entry name="vsys1"></entry><entry name="vsys2"></entry></vsys></entry></devices></config>` + "\n"
+	n4s, n6s, nrs := []int{0, 1}, []int{0, 1, 3}, []int{0, 2}
+	var idx int64
+	for _, a0 := range n4s {
+		for _, a1 := range n4s {
+			for _, b0 := range n6s {
+				for _, b1 := range n6s {
+					for _, c0 := range nrs {
+						for _, c1 := range nrs {
+							idx++
+							if !x.ctx.Mine(idx) || a0+a1+b0+b1+c0+c1 == 0 {
+								continue
+							}
+							t4, l4 := cfg("r", 4, part{[2]int{a0, a1}})
+							t6, l6 := cfg("v6", 6, part{[2]int{b0, b1}})
+							tr, lr := cfg("raw", 7, part{[2]int{c0, c1}})
+							if t4 == "" {
+								// the IPv4 part always exists (possibly without rules)
+								t4 = dev
+							}
+							b := core.Files{Main: t4, V6: t6, Raw: tr}
+							x.res.Evaluations++
+							out := x.sc.Compare("PAN-OS", core.Files{Main: dev}, b)
+							if out.Status != 0 {
+								x.violation("PAN-OS", "parts-panos-vsys", idx, dev, b, nil, "accepted", fmt.Sprintf("status%d:%s%s", out.Status, out.Site, rejectSig(out.Stderr)), out.Stderr+out.Panic)
+								continue
+							}
+							x.res.Nontrivial++
+							m, _ := panmodel.Load(dev)
+							bad := false
+							for i, cmd := range out.Script() {
+								if err := m.Exec(cmd); err != nil {
+									x.violation("PAN-OS", "parts-panos-vsys", idx, dev, b, out.Script(), "exec-accept", "exec:"+execSig(err), fmt.Sprintf("#%d: %v", i, err))
+									bad = true
+									break
+								}
+							}
+							if bad {
+								continue
+							}
+							x.res.Transitions++
+							for vi, v := range m.Vsys() {
+								if vi > 1 {
+									break
+								}
+								var got []string
+								for _, r := range v.Entries("rulebase", "security", "rules") {
+									act := ""
+									if a := r.Find("action"); a != nil {
+										act = a.Text
+									}
+									got = append(got, act+" "+strings.Join(r.Members("source"), ","))
+								}
+								p := mergeParts{v4: l4[vi], v6: l6[vi], pre: lr[vi]}
+								if msg := checkMerge(got, p, func(e string) bool { return true }, true); msg != "" {
+									x.violation("PAN-OS", "parts-panos-vsys", idx, dev, b, out.Script(), "merge-order", "merge:"+mergeSig(msg),
+										fmt.Sprintf("vsys%d: %s\nresulting rulebase:\n  %s", vi+1, msg, strings.Join(got, "\n  ")))
+									break
+								}
+							}
+							x.res.Outcome("ok:vsys")
+						}
+					}
+				}
+			}
+		}
+	}
+}
+
+// runNSXMulti: three gateway policies; every part holds any subset of them
+// (one rule each).  Every policy of every part must arrive with its rule
+// exactly once, whatever ids the other parts share with it and in whatever
+// position of the file it stands.
+func (x *c18) runNSXMulti() {
+	pols := []string{"v1", "v2", "v3"}
+	mk := func(tag string, seq int, mask int) (string, map[string]string) {
+		exp := map[string]string{}
+		if mask == 0 {
+			return "", exp
+		}
+		c := nsxCfgT{policies: map[string][]nsxRuleT{}}
+		for i, p := range pols {
+			if mask&(1<<uint(i)) == 0 {
+				continue
+			}
+			src := fmt.Sprintf("10.%d.%d.1", seq, i+1)
+			c.policies[p] = []nsxRuleT{{tag + p, "ALLOW", "OUT", seq + i, src, "10.9.9.9", "ANY", false, ""}}
+			exp[p] = src
+		}
+		return nsxJSON(c), exp
+	}
+	var idx int64
+	for m4 := 0; m4 < 8; m4++ {
+		for m6 := 0; m6 < 8; m6++ {
+			for mr := 0; mr < 8; mr++ {
+				idx++
+				if !x.ctx.Mine(idx) || m4+m6+mr == 0 {
+					continue
+				}
+				t4, e4 := mk("r", 20, m4)
+				t6, e6 := mk("v6r", 40, m6)
+				tr, er := mk("raw", 60, mr)
+				b := core.Files{Main: t4, V6: t6, Raw: tr}
+				x.res.Evaluations++
+				out := x.sc.Compare("NSX", core.Files{Main: ""}, b)
+				if out.Status != 0 {
+					x.violation("NSX", "parts-nsx-policies", idx, "", b, nil, "accepted", fmt.Sprintf("status%d:%s", out.Status, out.Site), out.Stderr+out.Panic)
+					continue
+				}
+				x.res.Nontrivial++
+				m := &nsxmodel.Dev{}
+				bad := false
+				for _, c := range parseNSXScript(out.Stdout) {
+					if err := m.Exec(c.method, c.url, c.body); err != nil {
+						x.violation("NSX", "parts-nsx-policies", idx, "", b, nil, "exec-accept", "exec:"+execSig(err), err.Error())
+						bad = true
+						break
+					}
+				}
+				if bad {
+					continue
+				}
+				x.res.Transitions++
+				for _, p := range pols {
+					var want []string
+					for _, e := range []map[string]string{e4, e6, er} {
+						if s, ok := e[p]; ok {
+							want = append(want, s)
+						}
+					}
+					sem := strings.Join(m.SemPolicy("Netspoc-"+p), "\n")
+					msg := ""
+					for _, s := range want {
+						if n := strings.Count(sem, `"src":"`+s+`"`); n != 1 {
+							msg = fmt.Sprintf("policy Netspoc-%s: rule with source %s appears %d times, expected 1", p, s, n)
+						}
+					}
+					if len(want) == 0 && sem != "" {
+						msg = fmt.Sprintf("policy Netspoc-%s exists although no part defines it", p)
+					}
+					if msg != "" {
+						x.violation("NSX", "parts-nsx-policies", idx, "", b, nil, "merge-complete", "merge:policy-lost-or-duplicated", msg+"\nresulting policy:\n"+sem)
+						break
+					}
+				}
+				x.res.Outcome("ok:policies")
+			}
+		}
+	}
 }
